@@ -177,6 +177,20 @@ func TestC10_ClientAuthentication(t *testing.T) {
 		other := c10Client{id: "other-client", secret: "other-secret-1"}
 		other.register(w)
 
+		// ---- another client authenticates correctly as itself and names c in the body of a push: whatever the endpoint
+		// makes of it, nothing may be started in c's name on the strength of the other client's credentials
+		if !c.public && rapid.IntRange(0, 7).Draw(rt, "otherClientPushesInTheNameOfC") == 0 {
+			pr := w.PAR(url.Values{"client_id": {c.id}, "response_type": {"code"}, "state": {"state-0123456789"}, "redirect_uri": {redirectURI}, "scope": {"a"}},
+				h.Auth{BasicUser: other.id, BasicPass: other.secret})
+			h.Label("push-authenticated-as-other-client-naming-c")
+			if pr.RequestURI != "" {
+				ar := w.Authorize(url.Values{"client_id": {c.id}, "request_uri": {pr.RequestURI}}, h.Consent{})
+				if ar.Code != "" || ar.Err.OK() {
+					h.Violate(rt, "C10/par/pushed-in-the-name-of-another-client", "client %q authenticated with its own secret and pushed a request with client_id=%q: the request_uri starts an authorization for %q, which never proved its secret", other.id, c.id, c.id)
+				}
+			}
+		}
+
 		// ---- setup material obtained with legitimate credentials (only if c can authenticate at all)
 		endpoint := rapid.SampledFrom([]string{"token/client_credentials", "token/client_credentials", "token/authorization_code", "token/refresh_token", "token/password", "token/device_code", "token/jwt_bearer", "revoke", "par", "device_authorization"}).Draw(rt, "endpoint")
 		var code, refresh, access, deviceCode string
